@@ -54,3 +54,22 @@ CHECKS["C15"] = {
         "holds, identity of real signal handlers. The decided clauses are necessary conditions of the property." + TRUSTED
     ),
 }
+
+CHECKS["C13"] = {
+    "technique": "must-pass-through / dominance on exceptional CFG + structural pipeline rules",
+    "text": (
+        "Static join/signal/abort discipline for ConcurrentTestSuite and ConcurrentStreamTestSuite: the worker "
+        "wrapper signals completion on every path out of the sub-suite's run() and turns a crash into a "
+        "broken-runner ErrorHolder on the same result; the coordinating run() creates one thread per sub-suite, "
+        "registers it before start(), waits while the bookkeeping is non-empty, forgets a worker only together "
+        "with join(), keeps thread creation and waiting under one catch-all handler that stops every remaining "
+        "worker and re-raises, and builds the documented per-worker pipeline (shared Semaphore(1) / "
+        "ExtendedToStream(Timestamping(StreamToQueue)); status events forwarded in dequeue order, forget only on "
+        "stopTestRun, unknown events rejected). The guarantee is made by code shape, so it holds for every "
+        "schedule and fault point rather than for the ones a test happens to sample."
+    ),
+    "note": (
+        "Interleavings are not explored and liveness of user run() is not decided; per-event atomicity of the "
+        "shared result is C12. Assumes Thread.join/Queue semantics." + TRUSTED
+    ),
+}
